@@ -703,4 +703,22 @@ theorem isDirectlyUnder_src (h h' : Nat) (t t' : T) :
           simp only [beq_eq_false_iff_ne, ne_eq]; omega
         rw [a, b]
 
+
+theorem forRange_concat {ρ : Type} : ∀ (xs : List Bytes) (acc : Bytes),
+    forRange xs acc (fun v (st_ : Bytes) => (Ctl.next (st_ + v) : Ctl Bytes ρ)) = Ctl.next (acc ++ xs.flatten)
+  | [], acc => by simp [forRange]
+  | x :: xs, acc => by
+    simp only [forRange, List.flatten_cons]
+    rw [forRange_concat xs (acc + x)]
+    show Ctl.next ((acc ++ x) ++ xs.flatten) = Ctl.next (acc ++ (x ++ xs.flatten))
+    rw [List.append_assoc]
+
+/-- **`Node.setBranch` of node.go**: the branch of a node becomes the concatenation of the strings it is given, in
+    order (the grower passes the parts of the branch: the continuation strings of the ancestors and the node's own
+    connector — `Model/Grow.lean` concatenates the same parts); nothing else of the node changes. -/
+theorem setBranch_src (n : Src.Node) (parts : List Bytes) :
+    (Src.Node.setBranch n parts).1 = { n with brnch := { n.brnch with value := parts.flatten } } := by
+  unfold Src.Node.setBranch
+  simp only [forRange_concat, List.nil_append]
+
 end Gtree
